@@ -433,7 +433,9 @@ func runC10(w *World, r *Report) {
 	optPaths := w.Field("compose", "Option", "paths")
 	optHandler := w.Field("compose", "Option", "handler")
 	npPath := w.Field("compose", "NodePath", "path")
-	isLenPaths := func(v ssa.Value) bool { return isLenOf(v, func(x ssa.Value) bool { return isLoadOfField(x, optPaths) }) }
+	isLenPaths := func(v ssa.Value) bool {
+		return isLenOf(v, func(x ssa.Value) bool { return isLoadOfField(x, optPaths) })
+	}
 	isLenPath := func(v ssa.Value) bool { return isLenOf(v, func(x ssa.Value) bool { return isLoadOfField(x, npPath) }) }
 	handlerAppends := func(f *ssa.Function) []*ssa.Call {
 		var out []*ssa.Call
